@@ -5,6 +5,8 @@ package standard
 import (
 	"context"
 	"errors"
+	"github.com/attestantio/go-eth2-client/spec"
+	"github.com/attestantio/go-eth2-client/spec/capella"
 
 	eth2client "github.com/attestantio/go-eth2-client"
 	"github.com/attestantio/go-eth2-client/api"
@@ -169,6 +171,54 @@ func VerifC18_BlockEvent() {
 		}
 	}
 	vnd.Cover("C18.event")
+}
+
+type c18Blocks struct {
+	block *spec.VersionedSignedBeaconBlock
+	fail  bool
+}
+
+func (b *c18Blocks) SignedBeaconBlock(_ context.Context, _ *api.SignedBeaconBlockOpts) (*api.Response[*spec.VersionedSignedBeaconBlock], error) {
+	if b.fail {
+		return nil, errors.New("mock block fetch failure")
+	}
+	return &api.Response[*spec.VersionedSignedBeaconBlock]{Data: b.block, Metadata: map[string]any{}}, nil
+}
+
+// VerifC18_HeadEvent: a head event (any slot; its block has any parent, with any
+// number of empty slots in between; the block fetch may fail) leaves the
+// root-to-slot entries right: a later lookup of the parent still returns the
+// cached slot, or the parent block's own slot when it was not cached.
+func VerifC18_HeadEvent() {
+	n := vnd.IntRange("n", 0, 2)
+	s, roots, slots, h := c18Cache(n)
+	headSlot := phase0.Slot(vnd.U64("head.slot"))
+	parent := phase0.Root(vnd.Root("head.parent"))
+	blocks := &c18Blocks{fail: vnd.Bool("block-fetch.fail"), block: &spec.VersionedSignedBeaconBlock{Version: spec.DataVersionCapella,
+		Capella: &capella.SignedBeaconBlock{Message: &capella.BeaconBlock{Slot: headSlot, ParentRoot: parent,
+			Body: &capella.BeaconBlockBody{ExecutionPayload: &capella.ExecutionPayload{BlockNumber: vnd.U64("el.height"), StateRoot: [32]byte{1}}}}}}}
+	s.signedBeaconBlockProvider = blocks
+	s.handleHead(&apiv1.Event{Topic: "head", Data: &apiv1.HeadEvent{Slot: headSlot, Block: phase0.Root(vnd.Root("head.root"))}})
+	for i := range roots {
+		st, ok := s.blockRootToSlot[roots[i]]
+		vnd.Assert(ok && st == slots[i], "C18.head.entries-untouched")
+	}
+	calls := h.calls
+	got, err := s.BlockRootToSlot(context.Background(), parent)
+	known := -1
+	for i := range roots {
+		if roots[i] == parent {
+			known = i
+		}
+	}
+	if known >= 0 {
+		vnd.Cover("C18.head.parent-cached")
+		vnd.Assert(err == nil && got == slots[known] && h.calls == calls, "C18.head.cached-parent-slot-still-served")
+	} else if !h.fail {
+		// whatever the handler chose to remember, the answer is the parent block's own slot
+		vnd.Cover("C18.head.parent-not-cached-before")
+		vnd.Assert(err == nil && got == h.slot, "C18.head.uncached-parent-gets-its-own-slot")
+	}
 }
 
 // VerifC17_CacheOverlap: block events, lookups (hit and miss) and cleaning
